@@ -343,7 +343,13 @@ impl<'e> Out<'e> {
             }
         }
         self.unmatched_count += 1;
-        let class = format!("{} | {} | {}", self.space, f.get("op").unwrap_or(""), f.symptom);
+        let mut class = format!("{} | {} | {}", self.space, f.get("op").unwrap_or(""), f.symptom);
+        // triage aid: TMC_CLASS_KEYS=attr1,attr2 refines the class histogram by those attributes
+        if let Ok(keys) = std::env::var("TMC_CLASS_KEYS") {
+            for k in keys.split(',') {
+                class.push_str(&format!(" | {k}={}", f.get(k).unwrap_or("-")));
+            }
+        }
         let e = self.unmatched_classes.entry(class).or_insert_with(|| (0, f.brief()));
         e.0 += 1;
         // keep the first few of every class so that each class gets a replay file
